@@ -417,10 +417,26 @@ def run(ctx, idx):
                 raise AnalysisError("C10.c: %s" % why)
         ctx.ob("C10.c", "%s::%s::converts" % (rel, r.name), rel, r.node.lineno, ok, why)
     # ------------------------------------------------------------------ d
+    # nonterminals that stand for punctuation only (`optional_comma : COMMA | empty`, `empty :`): every production is made of
+    # punctuation tokens and such nonterminals, and no action gives them a value - nothing to thread
+    novalue = set()
+    grew = True
+    while grew:
+        grew = False
+        for nt_ in nts:
+            if nt_ in novalue:
+                continue
+            ps_ = [p for p in L.productions if p.lhs == nt_]
+            if ps_ and all(all(sym in VALUELESS or sym in novalue for sym in p.rhs) for p in ps_) and all(p0_value(p.func) is None for p in ps_):
+                novalue.add(nt_)
+                grew = True
     for fname, prods in sorted(byfunc.items()):
         f = prods[0].func
         v = p0_value(f)
         con = "%s::Parser.%s::threads-values" % (rel, fname)
+        if v is None and all(p.lhs in novalue for p in prods):
+            ctx.hold("C10.d", con, rel, f.lineno, "punctuation only: %s carries no value" % "/".join(sorted({p.lhs for p in prods})))
+            continue
         if v is None:
             ctx.violate("C10.d", con, rel, f.lineno, "action never assigns p[0]")
             continue
@@ -437,7 +453,7 @@ def run(ctx, idx):
         probs = []
         for p in prods:
             for i, sym in enumerate(p.rhs, 1):
-                if sym in VALUELESS:
+                if sym in VALUELESS or sym in novalue:
                     if i in flow:
                         probs.append("punctuation %s (p[%d]) flows into the value" % (sym, i))
                 elif sym in ("TRUE", "FALSE", "ID", "INT", "FLOAT", "STRING", "PLAIN_STRING") or sym in nts:
@@ -487,6 +503,41 @@ def run(ctx, idx):
             ctx.ob("C10.e", "%s::grammar(%s)::layout-forms" % (rel, lhs), rel, 0, not lost and not gained, "lists of %s accept one or more items with an optional trailing comma, and nothing else" % lhs if not lost and not gained else
                    "; ".join((["%s is no longer accepted" % k for k in lost] + ["%s is now accepted (an element is silently skipped)" % k for k in gained])[:3]))
             lang_done.add(lhs)
+        # ... and on the parser PLY generates from these productions: an LALR(1) table with yacc's conflict resolution (shift
+        # unless precedence says otherwise).  A grammar that derives a trailing comma but needs two tokens of look-ahead to tell it
+        # from a separating one (right recursion + `optional_comma`) shifts the comma and then fails at the bracket.
+        tab = grammar.LRTable(L.productions, L.start, L.precedence)
+        tab1 = grammar.LRTable(L.productions, L.start, L.precedence, merge=False)
+        wrap = {"arguments": (["ID", "EQUAL", "ID"], []), "list": (["ID", "EQUAL", "ID", "LPAREN", "ID", "EQUAL"], ["RPAREN"])}
+        n_lr = 0
+        lr_undecided = []
+        for lhs, (start, o_, c_, item) in forms.items():
+            pre_, post_ = wrap[start]
+            lost, unsure = [], []
+            for k_ in (1, 2, 3):
+                for tr_ in (False, True):
+                    seq = []
+                    for j_ in range(k_):
+                        seq += item + (["COMMA"] if (j_ < k_ - 1 or tr_) else [])
+                    toks_ = pre_ + [o_] + seq + [c_] + post_
+                    if not grammar.derives(L.productions, L.start, toks_):
+                        continue  # not in the language: reported above
+                    n_lr += 1
+                    a_, b_ = tab.accepts(toks_), tab1.accepts(toks_)
+                    if not a_ and not b_:
+                        lost.append("%d item%s%s" % (k_, "s" if k_ > 1 else "", " and a trailing comma" if tr_ else ""))
+                    elif a_ != b_:
+                        unsure.append(" ".join(toks_))
+            if unsure and not lost:
+                lr_undecided.append("C10.e: the LALR(1) and the canonical LR(1) table of the extracted grammar disagree on `%s`; which of them PLY's table follows is not decided" % unsure[0])
+                continue
+            sr_ = sorted({"%s before %s" % (" ".join(tab.prods[c[4]][1]) or "<empty>", c[1]) for c in tab.conflicts if c[2] == "shift/reduce" and c[3] == "shift" and c[1] == "COMMA"})
+            ctx.ob("C10.e", "%s::grammar(%s)::generated-parser" % (rel, lhs), rel, 0, not lost, "the LALR(1) parser generated from the productions accepts 1-3 items with and without a trailing comma" if not lost else
+                   "the grammar derives %s, but the LALR(1) parser PLY generates from it does not accept %s: a shift/reduce conflict on COMMA (%s) is resolved as a shift, so after a comma the parser is committed to another item and fails at the closing bracket" % (
+                       lhs, "; ".join(lost[:3]), ", ".join(sr_[:2]) or "see the table"))
+        ctx.floor("C10.e", "layout forms run through the generated LR table", n_lr, 9)
+        if lr_undecided:
+            raise AnalysisError(lr_undecided[0])
         for lhs, (o_, c_) in (("arguments", ("LPAREN", "RPAREN")), ("list", ("LBRACK", "RBRACK"))):
             okl = grammar.derives(L.productions, lhs, [o_, c_])
             ctx.ob("C10.e", "%s::grammar(%s)::layout-forms" % (rel, lhs), rel, 0, okl, "the empty form is accepted" if okl else "the empty form `%s %s` is no longer accepted" % (o_, c_))
